@@ -97,7 +97,9 @@ def run(case):
     labels = [str(dt)]
     if case.get('second') is not None:
         d2 = np.array(case['second']).astype(dt)
-        if case['second_mode'] == 'assign':
+        total = data.astype(np.float64) + d2.astype(np.float64)
+        fits = dt.kind == 'f' or total.max() <= np.iinfo(dt).max  # in-place accumulation must not overflow the caller's own dtype
+        if case['second_mode'] == 'assign' or not fits:
             vol.data = d2.copy()
         else:
             vol.data += d2
@@ -114,9 +116,10 @@ def run(case):
 def grids(draw, tier):
     shape = [draw(st.integers(1, 6)) for _ in range(3)]
     n = int(np.prod(shape))
-    dtype = draw(st.sampled_from(['int64', 'int64', 'float64', 'float64', 'float32', 'int32']))
-    if dtype.startswith('int'):
-        val = st.one_of(st.just(0), st.just(0), st.integers(1, 50), st.integers(1, 2_000_000_000 if dtype == 'int64' else 100000), st.sampled_from([1, 1, 2]))
+    dtype = draw(st.sampled_from(['int64', 'int64', 'float64', 'float64', 'float32', 'int32', 'uint16', 'int16', 'uint8']))
+    if 'int' in dtype:
+        top = {'int64': 2_000_000_000, 'int32': 100000, 'uint16': 60000, 'int16': 30000, 'uint8': 250}[dtype]
+        val = st.one_of(st.just(0), st.just(0), st.integers(1, 50), st.integers(1, top), st.sampled_from([1, 1, 2, top]))
     else:
         val = st.one_of(st.just(0.0), st.just(0.0), st.floats(1e-3, 1e3), st.floats(1.0, 1e12), st.sampled_from([1.0, 0.5, 3.0]))
 
